@@ -69,6 +69,8 @@ cfg('aa-brush', '{#PMA=[>]CC[<]C(=O)OC[>A],#PEG=[<A]COC[>A][$A],#OH=[$B]O}',
 cfg('aa-masses', '{#PE=[$]CC[$],#VC=[$]C(Cl)C[$]}', {'$': 1}, all_atom=True, masses={'PE': 28.0, 'VC': 62.5}, targets=(1, 60))
 cfg('aa-double', '{#A=[$]=CC=[$],#B=[$]CC[$],#N=[$]=N[$]}', {'$1': 1, '$2': 1}, all_atom=True, targets=(1, 30))
 cfg('aa-bracketH', '{#PP=[>]C[CH](C)[<],#PE=[>][CH2]C[<]}', {'>': 1, '<': 1}, all_atom=True, targets=(1, 40))
+# descriptors on aromatic atoms: the new bond is aromatic, the hetero atom takes no hydrogen
+cfg('aa-arom', '{#P=[$]c1ccc([$])cc1,#T=[$]c1sc([$])cc1}', {'$': 1}, all_atom=True, targets=(1, 150))
 cfg('aa-charged', '{#A=[>]C[NH2+]C[<],#B=[>]CC([O-])[<]}', {'>': 1, '<': 1}, all_atom=True, targets=(1, 40), quick=False)
 
 
@@ -102,7 +104,7 @@ def run_path(c, target, prefix, chooser):
         mol = sampler.sample(target, start_fragment=c['start'])
     except own.ReplayDivergence:
         raise
-    except (IndexError, ValueError, OSError, KeyError) as e:
+    except (IndexError, ValueError, OSError, KeyError, SyntaxError) as e:
         err = type(e).__name__ + ':' + str(e)[:80]
     return sampler, mol, err
 
@@ -210,7 +212,9 @@ def check_molecule(c, sampler, mol, all_atom):
                     return 'copy:edge-missing', {'fragment': fid}
                 fo = mol.edges[m[a], m[b]].get('order', 1)
                 ar = bool(mol.nodes[m[a]].get('aromatic')) and bool(mol.nodes[m[b]].get('aromatic'))
-                if fo != ed.get('order', 1) and not (ar and fo in (1, 1.5, 2)):
+                # written as aromatic in the template: returned as 1.5 or, where pysmiles kekulises the ring, as 1 / 2
+                ar_t = bool(tmpl.nodes[a].get('aromatic')) and bool(tmpl.nodes[b].get('aromatic'))
+                if not O._orders_match(ed.get('order', 1), fo, ar_t, ar):
                     return 'copy:edge-order', {'fragment': fid}
         inv = {n: t for t, n in m.items()}
         for n in inv:
@@ -286,6 +290,10 @@ def evaluate(inp, oracle='wellformed'):
 
 def judge(c, inp, sampler, mol, err, ch, oracle):
     steps = None
+    if err is not None and err.startswith('SyntaxError'):
+        # not a dead end of the growth (no site / no partner left): the sampler assembled a molecule from valid
+        # fragments and then could not complete it with hydrogens
+        return bad('sample-assembled-but-not-completed:SyntaxError', None, {'config': c['name'], 'error': err})
     if err is not None:
         return Verdict(nontrivial=False, outcome='dead-end:' + err.split(':')[0], tags=('dead_end',))
     nfrag = len({tuple(d['fragid']) for _, d in mol.nodes(data=True)})
@@ -347,7 +355,7 @@ def sample_on(sampler, c, target, prefix, chooser):
         return sampler.sample(target, start_fragment=c['start']), None
     except own.ReplayDivergence:
         raise
-    except (IndexError, ValueError, OSError, KeyError) as e:
+    except (IndexError, ValueError, OSError, KeyError, SyntaxError) as e:
         return None, type(e).__name__
 
 
@@ -411,7 +419,7 @@ def run_conformance(task, R, c):
         try:
             sampler = make_sampler(c, seed=seed)
             m1 = sampler.sample(task['target'], start_fragment=c['start'])
-        except (IndexError, ValueError, OSError, KeyError) as e:
+        except (IndexError, ValueError, OSError, KeyError, SyntaxError) as e:
             err1 = type(e).__name__
         ch = own.Chooser()
         inp = {'kind': 'conformance', 'config': task['config'], 'target': task['target'], 'seed': seed, 'path': list(rec.path)}
